@@ -565,6 +565,9 @@ def synth_dropbox_valid(rng):
 
     nest = rng.choice([0, 0, 0, 0, 0, 0, 0, 0, 1, 1, 3, 3, 40, 320])
     ln = rng.choice([8, 60, 600, 6000, 30000, 60000]) if nest == 0 else rng.choice([8, 60, 120])
+    # the deepest shape fills the file; mostly a 16 KiB file (the loader legitimately deciphers up to 16 x the
+    # file size, ~1.5 s of pure-Python XXTEA for 64 KiB, ten times that under the line tracer), 64 KiB one time in four
+    cap = (64 * 1024 - 8) if nest < 320 or rng.chance(1, 4) else 16 * 1024
     mix = rng.choice(["unknown", "known", "mixed"])
     if mix == "unknown":
         code = bytes([rng.choice([5, 20, 25, 27, 30, 48, 49, 53, 57])]) * ln
@@ -584,7 +587,7 @@ def synth_dropbox_valid(rng):
     levels = 0
     for _ in range(nest):
         nxt = dropbox_encrypt_code(plain_code(b"(" + struct.pack("<i", 1) + record), key)
-        if len(nxt) > 64 * 1024 - 8:
+        if len(nxt) > cap:
             break
         record = nxt
         levels += 1
